@@ -922,22 +922,29 @@ fn main() {
             }
             s
         };
+        // a third way: exchange the two function VALUES (`swap f, g`): each variable then holds the
+        // other operator together with the precedence it carries
+        let swap_values = !swap && n >= 2 && rng.chance(1, 2);
         let src = if swap {
             format!("swap {}::precedence, {}::precedence; {}", ops[0].id(), ops[1].id(), chain)
+        } else if swap_values {
+            format!("swap {}, {}; {}", ops[0].id(), ops[1].id(), chain)
         } else {
             chain
         };
         let mut toks = vec!["E:0".to_string()];
         for (k, o) in ops.iter().enumerate() {
-            toks.push(format!("O:{}", o.token()));
+            let shown = if swap_values && k < 2 { &ops[1 - k] } else { o };
+            toks.push(format!("O:{}", shown.token()));
             toks.push(format!("E:{}", k + 1));
         }
         let req = format!("src - {}", toks.join(" "));
         log_take();
         let out = fw.interp.eval(&src);
         rust.push(outcome_with_log(&out, true));
-        keys.push(if swap { "src:swap".into() } else { "src:registered".into() });
-        rep.arm(if swap { "src:swap" } else { "src:registered" });
+        let kname = if swap { "src:swap-precedence" } else if swap_values { "src:swap-values" } else { "src:registered" };
+        keys.push(kname.into());
+        rep.arm(kname);
         inputs.push(format!("src(fresh interpreter, precedences at registration): {}\nrequest: {}", src, req));
         nontrivial.push(true);
         requests.push(req);
